@@ -225,7 +225,8 @@ impl<'a> Writer<'a> {
     }
 
     fn write_name(&mut self, name: Option<&BStr>) -> io::Result<()> {
-        const MISSING: &[u8] = &[b'*', 0x00];
+        // The names encoding appends the stop byte.
+        const MISSING: &[u8] = b"*";
 
         let buf = name.map(|s| s.as_ref()).unwrap_or(MISSING);
 
